@@ -198,6 +198,15 @@ def run_case(case):
             fs, info = util.block_cosim(src, std=std, case=case)
             res["findings"] += fs
             res["counts"]["block-cosim"] = res["counts"].get("block-cosim", 0) + 1
+        if o2.kind != "tree" and kind == "rename-end":
+            # the same ill-formed program with comments kept and a comment line in front of
+            # every opening statement (the name check must not depend on what precedes the opener)
+            src_c = "\n".join(("! c\n" + l) if re.match(r"(?i)^\s*(\w+\s*:\s*)?(program|module|subroutine|function|block\s*data|(pure|elemental|recursive)\b|if\s*\(.*\)\s*then|do\b|select|where|forall|associate|block\b|critical|type\b|interface)", l) else l
+                              for l in lines) + "\n"
+            o3 = real.try_parse(src_c, std=std, free=True, ignore_comments=False)
+            res["counts"]["rename-end+comments"] = res["counts"].get("rename-end+comments", 0) + 1
+            if o3.kind == "tree":
+                o2, src, kind = o3, src_c, "rename-end+comments"
         if o2.kind == "tree":
             ctx = {"std": std, "kind": kind, "cons": cons}
             known = findings.classify("C08", src, ctx)
